@@ -71,7 +71,20 @@ NOINST static void *watchdog(void *arg) {
 	(void)arg;
 	hx_role = ROLE_HARNESS;
 	int waited = 0;
-	while (!finished && waited < watchdog_ms) { __real_usleep(20000); waited += 20; }
+	while (!finished && waited < watchdog_ms) {
+		__real_usleep(20000); waited += 20;
+		if (waited % 500 == 0) {
+			/* a call that allocates without end (a loop that never terminates and queues something every round) would take the machine - and
+			 * every other check running on it - down long before the watchdog expires: 2 GB resident is a runaway (normal runs stay below 0.3 GB) */
+			FILE *f = fopen("/proc/self/statm", "r"); long tot = 0, res = 0;
+			if (f) { if (fscanf(f, "%ld %ld", &tot, &res) != 2) res = 0; fclose(f); }
+			if (res > (2L << 30) / 4096) {
+				mon_dump_log(20);
+				ev("\"e\":\"hang\",\"cycle\":0,\"why\":\"call %s: resident memory %ld MB and growing - runaway allocation\"", hx_curcall, res * 4096 >> 20);
+				_exit(98);
+			}
+		}
+	}
 	if (finished) return NULL;
 	char cyc[1024];
 	int c = mon_find_cycle(cyc, sizeof cyc);
